@@ -11,7 +11,7 @@
                        record of the interceptor AFTER the fix: commits) <> implementation
    c11_spec_failures:  the property text applied to the implementation's observations, independent of
                        the model; failure code = 100 * interceptor id + shape *)
-From IV Require Import Base.Word Model.Lifecycle.
+From IV Require Export Base.Word Model.Lifecycle.
 
 Definition c11_case := (Z * Z * list op * list (Z * Z) * Z)%type.
 
